@@ -1491,6 +1491,29 @@ def gen_world_wide_piece(rng):
     return w
 
 
+def gen_world_same_length_neighbours(rng):
+    """C11 / C12 / C01: two or three single-file torrents of the SAME length, the same piece length and DIFFERENT payloads (file
+    index 0 and the declared length coincide: whatever is remembered per (index, length) must not pass from one torrent
+    to the next); every payload in a scan directory; sometimes the first torrent (in info-hash order, unknown here) is already
+    exported from an earlier run"""
+    w = World()
+    n = rng.range(5, 13); L = rng.choice([2, 4, 5, 16])
+    k = rng.range(2, 4)
+    w.gts = [GT(b"n%d.bin" % i, L, [TFile(n, [b"n%d.bin" % i], gen_content(rng, n))], False) for i in range(k)]
+    w.docs = [g.doc for g in w.gts]
+    w.dirs.add(w.export)
+    w.scan = [(b"scan0",)]
+    for i, g in enumerate(w.gts):
+        if rng.chance(3, 4):
+            w.add_file((b"scan0", b"payload%d" % i), g.files[0].content)
+        if rng.chance(1, 3):
+            w.add_file(tuple(g.target(w.export, g.files[0])), g.files[0].content)      # exported by an earlier run
+    w.add_file((b"bystander", b"note.txt"), b"do not touch")
+    w.threads = 1
+    w.tag = "same-length neighbours"
+    return w
+
+
 def gen_world_pad_named_candidates(rng):
     """C02: a file's NAME on disk never decides whether it is a candidate — only its length does. (1) a torrent file of real
     data whose path ends in `.pad/<digits>` below another directory (three components: not a padding file), kept in the scan
